@@ -64,7 +64,7 @@ impl TxDependency {
     #[verifier::external_body] pub fn index(&self) -> usize { unimplemented!() }
     #[verifier::external_body] pub fn remove(&self, txid: TxId, pop_next: bool) -> (r: Option<TxId>)
         ensures self.released(txid), !pop_next ==> r is None, r matches Some(n) ==> n == txid + 1 && n < self.num() { unimplemented!() }
-    #[verifier::external_body] pub fn commit(&self, txid: TxId) ensures self.committed(txid) { unimplemented!() }
+    #[verifier::external_body] pub fn commit(&self, txid: TxId) requires txid < self.num(), ensures self.committed(txid) { unimplemented!() }
     #[verifier::external_body] pub fn key_tx(&self, txid: TxId, c: PublishedCursorReader<'_>) ensures self.parked(txid) { unimplemented!() }
     #[verifier::external_body] pub fn add(&self, txid: TxId, dep: Option<TxId>)
         requires dep matches Some(d) ==> d < txid,    //@ID TxDependency_add.P1 : C16
